@@ -258,6 +258,11 @@ func (c *m2) shortCircuit(op token.Token, xe, ye ast.Expr) string {
 		}
 		return fmt.Sprintf("(orb %s %s)", x, y)
 	}
+	for _, l := range yb {
+		if !bindsOnlyTemps(l) {
+			c.fail(ye, "right operand of %s changes a variable", op)
+		}
+	}
 	inner := fmt.Sprintf("(%s Ok %s)", strings.Join(yb, " "), y)
 	if op == token.LAND {
 		return c.bind(fmt.Sprintf("(if %s then %s else Ok false)", x, inner))
@@ -352,7 +357,7 @@ func (c *m2) bin2(at ast.Node, op token.Token, xe, ye ast.Expr, rt types.Type) s
 			yt := c.tyOf(ye)
 			y = c.ex(ye)
 			if yt.k == mZ {
-				c.note(at, "`%s`: signed shift count assumed non-negative (Go panics)", txt)
+				c.fail(ye, "shift by a count of a signed type that is not a constant (Go panics when it is negative; convert the count to an unsigned type)")
 				y = fmt.Sprintf("(Z.to_N %s)", y)
 			} else if yt.k != mN {
 				c.fail(ye, "non-integer shift count")
@@ -630,6 +635,9 @@ func (c *m2) builtin(e *ast.CallExpr, name string) string {
 			if !c.nonNeg(e.Args[2]) {
 				c.fail(e.Args[2], "make with a capacity that is not syntactically non-negative")
 			}
+			if !trivialCap5(e.Args[2]) {
+				c.ex(e.Args[2]) // evaluated: its value is not observable, a panic inside it is
+			}
 		}
 		nt := c.tyOf(n)
 		if v, ok := c.constInt(n); ok && v == 0 {
@@ -682,9 +690,7 @@ func (c *m2) intrinsic(e *ast.CallExpr, path, name string) string {
 		return fmt.Sprintf("(Go.bytes_compare %s %s)", a[0], a[1])
 	case "fmt.Sprintf":
 		// the text is not observable (only ever used in error messages): evaluate the arguments, yield tt
-		for _, a := range e.Args {
-			c.ex(a)
-		}
+		c.fmtArgs(e)
 		return "tt"
 	}
 	c.fail(e, "unsupported call `%s` (not in the list of intrinsics)", c.srcText(e.Pos(), e.End()))
@@ -873,6 +879,9 @@ func (c *m2) absCall(e *ast.CallExpr) (*absCallInfo, bool) {
 	}
 	if e.Ellipsis.IsValid() {
 		c.fail(e, "variadic call")
+	}
+	if aliasing5[tname+"_"+sel.Sel.Name] {
+		c.fail(e, "`%s` returns internal storage of the abstract object (aliasing is not modelled; translate the function in the third mode, which checks that the object is not changed afterwards)", c.srcText(e.Pos(), e.End()))
 	}
 	ot := mtype{k: mAbs, abs: tname}
 	info := &absCallInfo{mutates: mutates}
@@ -1106,4 +1115,23 @@ func (c *m2) table2(use *ast.Ident, v *types.Var) (string, int) {
 	c.consts.order = append(c.consts.order, name)
 	c.consts.lens[name] = len(elems)
 	return name, len(elems)
+}
+
+// fmtArgs: see (*m3).fmtArgs.  Error values are not values in this mode: an `error` operand must be a variable.
+func (c *m2) fmtArgs(ce *ast.CallExpr) {
+	if ce.Ellipsis.IsValid() {
+		c.fail(ce, "fmt / errors call with a spread argument list")
+	}
+	for _, a := range ce.Args {
+		if why := fmtOperandProblem(c.typeOf(a), nil); why != "" {
+			c.fail(a, "`%s` is given %s: not translated (fmt would run code the translation does not see)", c.srcText(ce.Fun.Pos(), ce.Fun.End()), why)
+		}
+		if c.mt(c.typeOf(a), a).k == mErr {
+			if _, isId := stripParens(a).(*ast.Ident); !isId {
+				c.fail(a, "an error operand of a fmt / errors call that is not a variable")
+			}
+			continue
+		}
+		c.ex(a)
+	}
 }
